@@ -1,4 +1,374 @@
 import TrimeshVerif.Model.Tracked
 namespace TV.Tracked
 
+/-! ### decidability (for the concrete witnesses) -/
+
+instance (h : Heap) (o : Obj) : Decidable (FreshObj h o) := by unfold FreshObj; exact inferInstance
+instance (h : Heap) : Decidable (Fresh h) := by unfold Fresh; exact inferInstance
+
+/-! ### list helpers -/
+
+theorem mem_modify {α} {l : List α} {i : Nat} {f : α → α} {x : α} (hx : x ∈ l.modify i f) :
+    ∃ j y, l[j]? = some y ∧ ((j = i ∧ x = f y) ∨ (j ≠ i ∧ x = y)) := by
+  obtain ⟨j, hj⟩ := List.mem_iff_getElem?.1 hx
+  rw [List.getElem?_modify] at hj
+  cases hy : l[j]? with
+  | none => simp [hy] at hj
+  | some y =>
+    refine ⟨j, y, hy, ?_⟩
+    simp only [hy, Option.map_eq_map, Option.map_some, Option.some.injEq] at hj
+    by_cases hij : i = j
+    · left; simp [hij] at hj; exact ⟨hij.symm, hj.symm⟩
+    · right; simp [hij] at hj; exact ⟨fun e => hij e.symm, hj.symm⟩
+
+theorem setCells_getElem?_of_not_mem (ps : List Nat) (vals : List Int) (buf : List Int) (p : Nat)
+    (hp : p ∉ ps) : (setCells buf ps vals)[p]? = buf[p]? := by
+  unfold setCells
+  induction ps generalizing buf vals with
+  | nil => simp
+  | cons q ps ih =>
+    cases vals with
+    | nil => simp
+    | cons v vals =>
+      simp only [List.mem_cons, not_or] at hp
+      simp only [List.zip_cons_cons, List.foldl_cons]
+      rw [ih vals _ hp.2, List.getElem?_set_ne (fun e => hp.1 e.symm)]
+
+/-- a write to the cells `ps` of buffer `b` is invisible at cell `p` of buffer `k` unless `k = b ∧ p ∈ ps` -/
+theorem getD_modify_setCells (bufs : List (List Int)) (b : Nat) (ps : List Nat) (vals : List Int)
+    (k p : Nat) (h : k ≠ b ∨ p ∉ ps) :
+    ((bufs.modify b (fun x => setCells x ps vals)).getD k []).getD p 0 = (bufs.getD k []).getD p 0 := by
+  simp only [List.getD_eq_getElem?_getD, List.getElem?_modify]
+  cases hk : bufs[k]? with
+  | none => simp
+  | some x =>
+    by_cases hbk : b = k
+    · have hp : p ∉ ps := by
+        rcases h with h | h
+        · exact absurd hbk.symm h
+        · exact h
+      simp [hbk, setCells_getElem?_of_not_mem ps vals x p hp]
+    · simp [hbk]
+
+/-! ### bytes and freshness transfer -/
+
+theorem bytesOf_congr {h h' : Heap} {o o' : Obj} (hw : o.window = o'.window)
+    (hb : ∀ p ∈ o.window, (h.bufs.getD o.buf []).getD p 0 = (h'.bufs.getD o'.buf []).getD p 0) :
+    bytesOf h o = bytesOf h' o' := by
+  unfold bytesOf
+  rw [← hw]
+  exact List.map_congr_left hb
+
+theorem bytesOf_of_bufs_eq {h h' : Heap} (o : Obj) (hb : h'.bufs = h.bufs) : bytesOf h' o = bytesOf h o := by
+  unfold bytesOf; rw [hb]
+
+theorem freshObj_of_dirty {h : Heap} {o : Obj} (hd : o.dirty = true) : FreshObj h o :=
+  fun _ => Or.inl hd
+
+theorem freshObj_of_bytes_eq {h h' : Heap} {o : Obj} (hb : bytesOf h' o = bytesOf h o)
+    (hf : FreshObj h o) : FreshObj h' o := by
+  intro ht
+  rw [hb]
+  exact hf ht
+
+/-- setting dirty flags on some objects and keeping the bytes of the old objects keeps freshness -/
+theorem fresh_modify_dirty {h h' : Heap} {i : Nat} (hf : Fresh h)
+    (hobjs : h'.objs = h.objs.modify i (fun o => { o with dirty := true }))
+    (hb : ∀ o ∈ h.objs, bytesOf h' o = bytesOf h o) : Fresh h' := by
+  intro o ho
+  rw [hobjs] at ho
+  obtain ⟨j, y, hy, hc⟩ := mem_modify ho
+  rcases hc with ⟨_, rfl⟩ | ⟨_, rfl⟩
+  · exact freshObj_of_dirty rfl
+  · have hm : o ∈ h.objs := List.mem_iff_getElem?.2 ⟨j, hy⟩
+    exact freshObj_of_bytes_eq (hb o hm) (hf o hm)
+
+theorem fresh_of_objs_eq {h h' : Heap} (hf : Fresh h) (hobjs : h'.objs = h.objs)
+    (hb : ∀ o ∈ h.objs, bytesOf h' o = bytesOf h o) : Fresh h' := by
+  intro o ho
+  rw [hobjs] at ho
+  exact freshObj_of_bytes_eq (hb o ho) (hf o ho)
+
+/-- appending a dirty object -/
+theorem fresh_append_dirty {h' : Heap} {objs : List Obj} {o' : Obj} (hd : o'.dirty = true)
+    (hobjs : h'.objs = objs ++ [o']) (hf : ∀ o ∈ objs, FreshObj h' o) : Fresh h' := by
+  intro o ho
+  rw [hobjs, List.mem_append, List.mem_singleton] at ho
+  rcases ho with ho | rfl
+  · exact hf o ho
+  · exact freshObj_of_dirty hd
+
+/-! ### the four operations -/
+
+theorem write_fresh (flagged : List String) (h : Heap) (i : Nat) (route : Route) (cells : List Nat)
+    (vals : List Int) (hf : Fresh h) (hs : SafeWrite flagged h i route cells = true) :
+    Fresh (step flagged h (.write i route cells vals)).2 := by
+  unfold SafeWrite at hs
+  cases hi : h.objs[i]? with
+  | none => simp only [step, hi]; exact hf
+  | some o =>
+    simp only [hi, Bool.and_eq_true, List.all_eq_true, List.mem_range] at hs
+    obtain ⟨hflag, hall⟩ := hs
+    have hflag' : (o.tracked && routeFlags flagged route) = true := by simpa using hflag
+    simp only [step, hi, hflag', if_true]
+    intro x hx
+    simp only [modifyObj] at hx
+    obtain ⟨j, y, hy, hc⟩ := mem_modify hx
+    rcases hc with ⟨_, rfl⟩ | ⟨hji, rfl⟩
+    · exact freshObj_of_dirty rfl
+    · have hm : x ∈ h.objs := List.mem_iff_getElem?.2 ⟨j, hy⟩
+      have hjlt : j < h.objs.length := by
+        rcases Nat.lt_or_ge j h.objs.length with hlt | hge
+        · exact hlt
+        · rw [List.getElem?_eq_none hge] at hy; cases hy
+      have hj := hall j hjlt
+      simp only [hy, Bool.or_eq_true, beq_iff_eq, hji, false_or, Bool.not_eq_true',
+        Option.isNone_iff_eq_none] at hj
+      intro ht
+      rcases hj with ((hj | hj) | hj) | hj
+      · rw [ht] at hj; cases hj
+      · exact Or.inl hj
+      · exact Or.inr (Or.inl hj)
+      · have hb : bytesOf (modifyObj { h with bufs := h.bufs.modify o.buf (fun b => setCells b
+            (cells.filterMap (o.window[·]?)) vals) } i (fun o => { o with dirty := true })) x = bytesOf h x := by
+          apply bytesOf_congr rfl
+          intro p hp
+          simp only [modifyObj]
+          apply getD_modify_setCells
+          by_cases hbuf : x.buf = o.buf
+          · right
+            intro hpin
+            have : (List.any (cells.filterMap (o.window[·]?)) fun p => sees x o.buf p) = true := by
+              rw [List.any_eq_true]
+              exact ⟨p, hpin, by simp [sees, hbuf, hp]⟩
+            rw [this] at hj; cases hj
+          · left; exact hbuf
+        rw [hb]
+        exact hf x hm ht
+
+/-- the conditional "mark the source dirty" of `view` / `copy` -/
+theorem mark_bufs (c : Prop) [Decidable c] (h : Heap) (i : Nat) (f : Obj → Obj) :
+    (if c then modifyObj h i f else h).bufs = h.bufs := by
+  split <;> rfl
+
+theorem mem_mark {c : Prop} [Decidable c] {h : Heap} {i : Nat} {x : Obj}
+    (hx : x ∈ (if c then modifyObj h i (fun o => { o with dirty := true }) else h).objs) :
+    ∃ y ∈ h.objs, x.buf = y.buf ∧ (x.dirty = true ∨ x = y) := by
+  split at hx
+  · simp only [modifyObj] at hx
+    obtain ⟨j, y, hy, hc⟩ := mem_modify hx
+    have hm : y ∈ h.objs := List.mem_iff_getElem?.2 ⟨j, hy⟩
+    rcases hc with ⟨_, rfl⟩ | ⟨_, rfl⟩
+    · exact ⟨y, hm, rfl, Or.inl rfl⟩
+    · exact ⟨x, hm, rfl, Or.inr rfl⟩
+  · exact ⟨x, hx, rfl, Or.inr rfl⟩
+
+theorem view_fresh (flagged : List String) (h : Heap) (i : Nat) (sel : List Nat) (tracked : Bool)
+    (hf : Fresh h) : Fresh (step flagged h (.view i sel tracked)).2 := by
+  cases hi : h.objs[i]? with
+  | none => simp only [step, hi]; exact hf
+  | some o =>
+    simp only [step, hi, mark_bufs]
+    refine fresh_append_dirty rfl rfl ?_
+    intro x hx
+    obtain ⟨y, hy, _, hd | rfl⟩ := mem_mark hx
+    · exact freshObj_of_dirty hd
+    · exact freshObj_of_bytes_eq rfl (hf x hy)
+
+theorem hash_fresh (flagged : List String) (h : Heap) (i : Nat) (hf : Fresh h) :
+    Fresh (step flagged h (.hash i)).2 := by
+  cases hi : h.objs[i]? with
+  | none => simp only [step, hi]; exact hf
+  | some o =>
+    simp only [step, hi]
+    split
+    · exact hf
+    · split
+      · exact hf
+      · intro x hx
+        simp only [modifyObj] at hx
+        obtain ⟨j, y, hy, hc⟩ := mem_modify hx
+        rcases hc with ⟨rfl, rfl⟩ | ⟨_, rfl⟩
+        · rw [hi] at hy
+          cases hy
+          exact fun _ => Or.inr (Or.inr rfl)
+        · have hm : x ∈ h.objs := List.mem_iff_getElem?.2 ⟨j, hy⟩
+          exact freshObj_of_bytes_eq rfl (hf x hm)
+
+/-- `copy` appends a buffer: objects whose buffer index is in range keep their bytes -/
+theorem copy_fresh (flagged : List String) (h : Heap) (i : Nat) (hf : Fresh h)
+    (hw : ∀ o ∈ h.objs, o.buf < h.bufs.length) : Fresh (step flagged h (.copy i)).2 := by
+  cases hi : h.objs[i]? with
+  | none => simp only [step, hi]; exact hf
+  | some o =>
+    simp only [step, hi, mark_bufs]
+    refine fresh_append_dirty rfl rfl ?_
+    have hb : ∀ (objs : List Obj) (x : Obj), x ∈ h.objs →
+        bytesOf ⟨h.bufs ++ [bytesOf h o], objs⟩ x = bytesOf h x := by
+      intro objs x hx
+      apply bytesOf_congr rfl
+      intro p _
+      simp only [List.getD_eq_getElem?_getD, List.getElem?_append_left (hw x hx)]
+    intro x hx
+    obtain ⟨y, hy, _, hd | rfl⟩ := mem_mark hx
+    · exact freshObj_of_dirty hd
+    · exact freshObj_of_bytes_eq (hb _ x hy) (hf x hy)
+
+/-! ### well-formed heaps: every object points at an existing buffer -/
+
+/-- one step keeps every object fresh on a heap whose objects all point at existing buffers -/
+theorem step_fresh_wf (flagged : List String) (h : Heap) (op : Op) (hf : Fresh h)
+    (hw : ∀ o ∈ h.objs, o.buf < h.bufs.length)
+    (hs : (match op with
+      | .write i route cells _ => SafeWrite flagged h i route cells
+      | _ => true) = true) : Fresh (step flagged h op).2 := by
+  cases op with
+  | write i route cells vals => exact write_fresh flagged h i route cells vals hf hs
+  | view i sel tracked => exact view_fresh flagged h i sel tracked hf
+  | copy i => exact copy_fresh flagged h i hf hw
+  | hash i => exact hash_fresh flagged h i hf
+
+/-- one step keeps every object fresh unless it is a `copy` -/
+theorem step_fresh_of_not_copy (flagged : List String) (h : Heap) (op : Op) (hf : Fresh h)
+    (hc : ∀ i, op ≠ .copy i)
+    (hs : (match op with
+      | .write i route cells _ => SafeWrite flagged h i route cells
+      | _ => true) = true) : Fresh (step flagged h op).2 := by
+  cases op with
+  | write i route cells vals => exact write_fresh flagged h i route cells vals hf hs
+  | view i sel tracked => exact view_fresh flagged h i sel tracked hf
+  | copy i => exact absurd rfl (hc i)
+  | hash i => exact hash_fresh flagged h i hf
+
+theorem modify_buf_lt {objs : List Obj} {i n : Nat} {f : Obj → Obj} (hfb : ∀ o, (f o).buf = o.buf)
+    (hw : ∀ o ∈ objs, o.buf < n) : ∀ o ∈ objs.modify i f, o.buf < n := by
+  intro x hx
+  obtain ⟨j, y, hy, hc⟩ := mem_modify hx
+  have hm : y ∈ objs := List.mem_iff_getElem?.2 ⟨j, hy⟩
+  rcases hc with ⟨_, rfl⟩ | ⟨_, rfl⟩
+  · rw [hfb]; exact hw y hm
+  · exact hw x hm
+
+/-- every step keeps the heap well formed -/
+theorem step_wf (flagged : List String) (h : Heap) (op : Op)
+    (hw : ∀ o ∈ h.objs, o.buf < h.bufs.length) :
+    ∀ o ∈ (step flagged h op).2.objs, o.buf < (step flagged h op).2.bufs.length := by
+  cases op with
+  | write i route cells vals =>
+    cases hi : h.objs[i]? with
+    | none => simp only [step, hi]; exact hw
+    | some o =>
+      simp only [step, hi]
+      intro x hx
+      have hlen : ∀ (b : Bool), (if b = true then modifyObj { h with bufs := h.bufs.modify o.buf (fun b => setCells b
+          (cells.filterMap (o.window[·]?)) vals) } i (fun o => { o with dirty := true }) else
+          { h with bufs := h.bufs.modify o.buf (fun b => setCells b
+          (cells.filterMap (o.window[·]?)) vals) }).bufs.length = h.bufs.length := by
+        intro b; rw [mark_bufs]; simp
+      rw [hlen]
+      obtain ⟨y, hy, hb, _⟩ := mem_mark hx
+      rw [hb]; exact hw y hy
+  | view i sel tracked =>
+    cases hi : h.objs[i]? with
+    | none => simp only [step, hi]; exact hw
+    | some o =>
+      have ho : o.buf < h.bufs.length := hw o (List.mem_iff_getElem?.2 ⟨i, hi⟩)
+      simp only [step, hi, mark_bufs]
+      intro x hx
+      rw [List.mem_append, List.mem_singleton] at hx
+      rcases hx with hx | rfl
+      · obtain ⟨y, hy, hb, _⟩ := mem_mark hx
+        rw [hb]; exact hw y hy
+      · exact ho
+  | copy i =>
+    cases hi : h.objs[i]? with
+    | none => simp only [step, hi]; exact hw
+    | some o =>
+      simp only [step, hi, mark_bufs, List.length_append, List.length_singleton]
+      intro x hx
+      rw [List.mem_append, List.mem_singleton] at hx
+      rcases hx with hx | rfl
+      · obtain ⟨y, hy, hb, _⟩ := mem_mark hx
+        rw [hb]; exact Nat.lt_succ_of_lt (hw y hy)
+      · exact Nat.lt_succ_self _
+  | hash i =>
+    cases hi : h.objs[i]? with
+    | none => simp only [step, hi]; exact hw
+    | some o =>
+      simp only [step, hi]
+      split
+      · exact hw
+      · split
+        · exact hw
+        · exact modify_buf_lt (fun _ => rfl) hw
+
+/-- the partial property on well-formed heaps, for programs of any length -/
+theorem run_fresh_wf (flagged : List String) (h : Heap) (ops : List Op) (hf : Fresh h)
+    (hw : ∀ o ∈ h.objs, o.buf < h.bufs.length)
+    (hs : SafeProgram flagged h ops = true) : Fresh (run flagged h ops) := by
+  induction ops generalizing h with
+  | nil => exact hf
+  | cons op ops ih =>
+    simp only [SafeProgram, Bool.and_eq_true] at hs
+    simp only [run, List.foldl_cons]
+    exact ih _ (step_fresh_wf flagged h op hf hw hs.1) (step_wf flagged h op hw) hs.2
+
+/-! ### why the well-formedness hypothesis is needed
+
+`step_fresh_wf` / `run_fresh_wf` without `hw` are FALSE: an object whose `buf` index equals
+`h.bufs.length` reads zeros (dangling), and `copy` appends a buffer exactly there, changing its bytes
+while it holds a clean memo. -/
+example :
+    let hc : Heap := { bufs := [[5]], objs := [⟨0, [0], false, false, none⟩, ⟨1, [0], true, false, some [0]⟩] }
+    Fresh hc ∧ SafeProgram [] hc [.copy 0] = true ∧
+      ¬ Fresh (step [] hc (.copy 0)).2 ∧ ¬ Fresh (run [] hc [.copy 0]) := by
+  decide
+
+/-! ### non-writing operations and hash reads -/
+
+theorem nonwriting_bufs (flagged : List String) (h : Heap) (op : Op)
+    (hop : ∀ i r c v, op ≠ .write i r c v) (j : Nat) (hj : j < h.bufs.length) :
+    (step flagged h op).2.bufs[j]? = h.bufs[j]? := by
+  cases op with
+  | write i r c v => exact absurd rfl (hop i r c v)
+  | view i sel tracked =>
+    cases hi : h.objs[i]? with
+    | none => simp only [step, hi]
+    | some o => simp only [step, hi]; split <;> rfl
+  | copy i =>
+    cases hi : h.objs[i]? with
+    | none => simp only [step, hi]
+    | some o =>
+      simp only [step, hi]
+      split
+      · simp only [modifyObj]; exact List.getElem?_append_left hj
+      · exact List.getElem?_append_left hj
+  | hash i =>
+    cases hi : h.objs[i]? with
+    | none => simp only [step, hi]
+    | some o =>
+      simp only [step, hi]
+      split
+      · rfl
+      · split <;> rfl
+
+theorem hash_returns_bytes (flagged : List String) (h : Heap) (i : Nat) (o : Obj) (hf : Fresh h)
+    (ho : h.objs[i]? = some o) (ht : o.tracked = true) :
+    (step flagged h (.hash i)).1 = some (bytesOf h o) ∧ Fresh (step flagged h (.hash i)).2 ∧
+    (step flagged h (.hash i)).2.bufs = h.bufs := by
+  refine ⟨?_, hash_fresh flagged h i hf, ?_⟩
+  · have hm : o ∈ h.objs := List.mem_iff_getElem?.2 ⟨i, ho⟩
+    have hfo := hf o hm ht
+    simp only [step, ho, ht, Bool.not_true, Bool.false_eq_true, if_false]
+    split
+    · rename_i hc
+      simp only [Bool.and_eq_true, Bool.not_eq_true', Option.isSome_iff_ne_none] at hc
+      rcases hfo with hd | hn | hs
+      · rw [hd] at hc; cases hc.1
+      · exact absurd hn hc.2
+      · exact hs
+    · rfl
+  · simp only [step, ho, ht, Bool.not_true, Bool.false_eq_true, if_false]
+    split <;> rfl
+
 end TV.Tracked
